@@ -706,7 +706,13 @@ pub fn c02_multiwriter_programs() -> Vec<Arc<Prog>> {
     vec![
         p("crash: w||w||w", big, vec![Put(0, 1, 8)], vec![vec![Put(0, 2, 8)], vec![Put(1, 3, 8)], vec![Put(0, 4, 8)]]),
         p("crash: w+w||w+w", big, vec![], vec![vec![Put(0, 1, 8), Put(1, 2, 8)], vec![Put(1, 3, 8), Put(0, 4, 8)]]),
-        p("crash: w||w||w-140k", big, vec![Put(0, 1, 8)], vec![vec![Put(0, 2, 8)], vec![Put(1, 3, 8)], vec![Put(1, 4, 140_000)]]),
+        // (crash images only at removals / manifest writes / renames and at the end: the images
+        // hold a 140 kB WAL)
+        {
+            let mut q = (*p("crash: w||w||w-140k", big, vec![Put(0, 1, 8)], vec![vec![Put(0, 2, 8)], vec![Put(1, 3, 8)], vec![Put(1, 4, 140_000)]])).clone();
+            q.recover_at_all_writes = false;
+            Arc::new(q)
+        },
         p("crash: batch||w||del", big, vec![Put(0, 1, 8)], vec![vec![Batch(vec![(0, Some(2)), (1, Some(2))])], vec![Put(1, 3, 8)], vec![Del(0)]]),
         p("crash: rotating w+w||w+w", rot_cfg(), vec![Put(0, 1, 8)], vec![vec![Put(1, 2, 8), Put(0, 3, 8)], vec![Put(1, 4, 8), Put(0, 5, 8)]]),
         p("crash: rotating w+w||batch||flush", rot_cfg(), vec![Put(0, 1, 8)], vec![vec![Put(1, 2, 8), Put(0, 3, 8)], vec![Batch(vec![(0, Some(4)), (1, Some(4))])], vec![Flush]]),
